@@ -5,13 +5,27 @@ def run(res, a):
     if a.replay:
         return apitrace.replay(res, "C04", a.replay)
     vlib.proof_stage(res, "C04")
+    # corpus first: the witness of the repaired rezalloc defect (known_findings.txt, fixed: C04 9a9d12e)
+    import os
+    cdir = os.path.join(vlib.VERIF, "corpus", "C04")
+    exe0 = apitrace.build(res)
+    for name in sorted(os.listdir(cdir)) if (exe0 and os.path.isdir(cdir)) else []:
+        if not name.endswith(".trace"): continue
+        rc, out, err = apitrace.run_one(exe0, os.path.join(cdir, name), dump=False)
+        v, ended = apitrace.parse(rc, out)
+        for op, kind, text in v:
+            if kind in apitrace.KINDS["C04"] or kind == "crash":
+                res.violation("impl:" + kind, "corpus/C04/%s reproduces: %s" % (name, text), witness=open(os.path.join(cdir, name)).read(), replay_name="C04_corpus_%s" % name)
+                break
     k = 3 if a.tier == "thorough" else 1
     plan = [("realloc", 14*k, 400), ("boundary", 6*k, 300), ("fillfree", 4*k, 400), ("aligned", 4*k, 300), ("huge", 3*k, 40), ("heaps", 3*k, 250)]
     for sd in ([a.seed, a.seed + 1] if a.tier == "thorough" else [a.seed]):
         apitrace.run_traces(res, "C04", plan, sd, dump=False, tag="" if sd == a.seed else "_s%d" % sd)
     try:
         import apimodel
-        apimodel.run(res, a.seed, a.tier)
+        st = apimodel.run(res, a.seed, a.tier)
+        res.cov.setdefault("input_distribution", {})["f_api"] = {"F": st.get("F", {}), "T": st.get("T", {}), "records": st.get("records", 0), "distinct": st.get("distinct", 0), "mismatches": st.get("mismatches", 0)}
+        res.cov["evaluations"] += st.get("records", 0)
     except ImportError:
         pass
     res.cov["rule"] = ("API traces on the real allocator: memory is dirtied with non-zero patterns, freed and re-used; every zalloc/calloc/zalloc_aligned/small result is read back as zero over the requested size; rezalloc/recalloc monotone growth chains (in place and moving, with writes inside the requested size between steps) are checked byte by byte on [old requested, new requested). distinct = distinct traces (+ function-level records of harness/f_api.c compared with the Coq API model)")
